@@ -1259,40 +1259,8 @@ pub fn run(args: &Args, prop: &'static str) -> Report {
     let small_ops = ops_for(&small_paths, &["a", "d/a"]);
     // removal and re-creation, the operations whose effect lives in whiteouts and opaque markers
     let switch_ops: Vec<OOp> = small_ops.iter().filter(|o| matches!(o, OOp::Unlink(_) | OOp::Rmdir(_) | OOp::Mkdir(_) | OOp::CreateExcl(_) | OOp::Symlink(_)) && o.path() != "n" && o.path() != "d/n").cloned().collect();
-    // family pair: upper x one lower, every single operation (thorough: every pair of operations on a subset)
-    for (ui, u) in uppers.iter().enumerate() {
-        for (li, l) in lowers.iter().enumerate() {
-            // C11 quick: every third stack (the restart doubles the cost); C10 and thorough: all
-            if prop == "C11" && !thorough && (ui + li) % 3 != 0 {
-                continue;
-            }
-            let stack = Stack { upper: Some(u.clone()), lowers: vec![l.clone()] };
-            if run.rep.mine(idx) && !run.rep.over_budget() {
-                let mut seq = Vec::new();
-                run.rec("pair", &stack, &mut seq, &small_ops, 1);
-            }
-            idx += 1;
-        }
-    }
-    // family pair-cold (C10): the first operation arrives before the client has looked anything up; names are learned
-    // through READDIRPLUS only (as after `ls -l`), so nothing was loaded by an earlier LOOKUP
-    if prop == "C10" {
-        let cold_ops: Vec<OOp> = small_ops.iter().filter(|o| matches!(o, OOp::Rmdir(_) | OOp::Unlink(_) | OOp::Mkdir(_) | OOp::CreateExcl(_) | OOp::Chmod(_) | OOp::Write(_) | OOp::Link(..))).cloned().collect();
-        for (ui, u) in uppers.iter().enumerate() {
-            for (li, l) in lowers.iter().enumerate() {
-                if !thorough && (ui * 55 + li) % 4 != 0 {
-                    continue;
-                }
-                let stack = Stack { upper: Some(u.clone()), lowers: vec![l.clone()] };
-                for op in &cold_ops {
-                    if run.rep.mine(idx) && !run.rep.over_budget() {
-                        run.case("pair-cold", &stack, &[op.clone()]);
-                    }
-                    idx += 1;
-                }
-            }
-        }
-    }
+    // Order: the small targeted families first, the large products last, so that a run that hits its wall-clock budget
+    // on a loaded machine has lost part of a product and not a whole family (the budget cap is reported either way).
     // family handles: a read-only handle opened before the object is copied up is used afterwards
     {
         let hl = LNode::dir(0o755, None, vec![("a", LNode::file("L-a", 0o640)), ("b", LNode::file("L-a", 0o640)), ("d", LNode::dir(0o1777, None, vec![("a", LNode::file("L-da", 0o604))]))]);
@@ -1320,43 +1288,13 @@ pub fn run(args: &Args, prop: &'static str) -> Report {
             }
         }
     }
-    // family no-upper: one or two lowers, nothing may change
-    for (li, l) in lowers.iter().enumerate() {
-        for (mi, m) in lowers2.iter().enumerate() {
-            if mi != 0 && (li + mi) % 7 != 0 && !thorough {
-                continue;
-            }
-            if prop == "C11" && !(thorough && mi == 0) {
-                continue; // nothing is ever written without an upper layer: C10 checks exactly that
-            }
-            let stack = Stack { upper: None, lowers: if mi == 0 { vec![l.clone()] } else { vec![l.clone(), m.clone()] } };
-            if run.rep.mine(idx) && !run.rep.over_budget() {
-                let mut seq = Vec::new();
-                run.rec("no-upper", &stack, &mut seq, &small_ops, 1);
-            }
-            idx += 1;
-        }
-    }
-    // family triple: three layers over d only (6 contents each): whiteouts and opaque directories in the middle
-    let d6 = |tag: &str, mode: u32, opq: &'static str| -> Vec<LNode> {
-        let f = LNode::file(&format!("{}-da", tag), 0o644);
-        vec![
-            LNode::dir(0o755, None, vec![]),
-            LNode::dir(0o755, None, vec![("d", LNode::Whiteout)]),
-            LNode::dir(0o755, None, vec![("d", LNode::dir(mode, None, vec![]))]),
-            LNode::dir(0o755, None, vec![("d", LNode::dir(mode, None, vec![(if tag == "U" { "u" } else if tag == "L" { "a" } else { "m" }, f.clone())]))]),
-            LNode::dir(0o755, None, vec![("d", LNode::dir(mode, Some(opq), vec![("a", f.clone())]))]),
-            LNode::dir(0o755, None, vec![("d", LNode::file(&format!("{}-d", tag), 0o644))]),
-        ]
-    };
-    let triple_ops = ops_for(&["d", "d/a", "d/m", "d/n"], &["d/a"]);
-    for u in d6("U", 0o755, OPAQUE_NAMES[0]) {
-        for l in d6("L", 0o1777, OPAQUE_NAMES[1]) {
-            for m in d6("M", 0o750, OPAQUE_NAMES[2]) {
-                let stack = Stack { upper: Some(u.clone()), lowers: vec![l.clone(), m.clone()] };
+    // family bigfile (C11): copy-up of files larger than the copy chunk, compared on the host byte by byte
+    if prop == "C11" {
+        let sizes: Vec<usize> = if thorough { vec![0, 1, 4095, 4096, 1 << 20, (4 << 20) - 1, 4 << 20, (4 << 20) + 1, (9 << 20) + 5] } else { vec![4096, (4 << 20) + 1] };
+        for size in sizes {
+            for opk in 0..3 {
                 if run.rep.mine(idx) && !run.rep.over_budget() {
-                    let mut seq = Vec::new();
-                    run.rec("triple", &stack, &mut seq, &triple_ops, 1);
+                    run.bigfile(size, opk);
                 }
                 idx += 1;
             }
@@ -1400,6 +1338,48 @@ pub fn run(args: &Args, prop: &'static str) -> Report {
             }
         }
     }
+    // family triple: three layers over d only (6 contents each): whiteouts and opaque directories in the middle
+    let d6 = |tag: &str, mode: u32, opq: &'static str| -> Vec<LNode> {
+        let f = LNode::file(&format!("{}-da", tag), 0o644);
+        vec![
+            LNode::dir(0o755, None, vec![]),
+            LNode::dir(0o755, None, vec![("d", LNode::Whiteout)]),
+            LNode::dir(0o755, None, vec![("d", LNode::dir(mode, None, vec![]))]),
+            LNode::dir(0o755, None, vec![("d", LNode::dir(mode, None, vec![(if tag == "U" { "u" } else if tag == "L" { "a" } else { "m" }, f.clone())]))]),
+            LNode::dir(0o755, None, vec![("d", LNode::dir(mode, Some(opq), vec![("a", f.clone())]))]),
+            LNode::dir(0o755, None, vec![("d", LNode::file(&format!("{}-d", tag), 0o644))]),
+        ]
+    };
+    let triple_ops = ops_for(&["d", "d/a", "d/m", "d/n"], &["d/a"]);
+    for u in d6("U", 0o755, OPAQUE_NAMES[0]) {
+        for l in d6("L", 0o1777, OPAQUE_NAMES[1]) {
+            for m in d6("M", 0o750, OPAQUE_NAMES[2]) {
+                let stack = Stack { upper: Some(u.clone()), lowers: vec![l.clone(), m.clone()] };
+                if run.rep.mine(idx) && !run.rep.over_budget() {
+                    let mut seq = Vec::new();
+                    run.rec("triple", &stack, &mut seq, &triple_ops, 1);
+                }
+                idx += 1;
+            }
+        }
+    }
+    // family no-upper: one or two lowers, nothing may change
+    for (li, l) in lowers.iter().enumerate() {
+        for (mi, m) in lowers2.iter().enumerate() {
+            if mi != 0 && (li + mi) % 7 != 0 && !thorough {
+                continue;
+            }
+            if prop == "C11" && !(thorough && mi == 0) {
+                continue; // nothing is ever written without an upper layer: C10 checks exactly that
+            }
+            let stack = Stack { upper: None, lowers: if mi == 0 { vec![l.clone()] } else { vec![l.clone(), m.clone()] } };
+            if run.rep.mine(idx) && !run.rep.over_budget() {
+                let mut seq = Vec::new();
+                run.rec("no-upper", &stack, &mut seq, &small_ops, 1);
+            }
+            idx += 1;
+        }
+    }
     // pair-switch: on a sample of the pair stacks, every pair of operations with a restart in between
     if prop == "C11" {
         let step = if thorough { 1 } else { 20 };
@@ -1413,6 +1393,40 @@ pub fn run(args: &Args, prop: &'static str) -> Report {
                     if run.rep.mine(idx) && !run.rep.over_budget() {
                         let mut seq = vec![first.clone()];
                         run.rec("pair-switch", &stack, &mut seq, &switch_ops, 2);
+                    }
+                    idx += 1;
+                }
+            }
+        }
+    }
+    // family pair: upper x one lower, every single operation (thorough: every pair of operations on a subset)
+    for (ui, u) in uppers.iter().enumerate() {
+        for (li, l) in lowers.iter().enumerate() {
+            // C11 quick: every third stack (the restart doubles the cost); C10 and thorough: all
+            if prop == "C11" && !thorough && (ui + li) % 3 != 0 {
+                continue;
+            }
+            let stack = Stack { upper: Some(u.clone()), lowers: vec![l.clone()] };
+            if run.rep.mine(idx) && !run.rep.over_budget() {
+                let mut seq = Vec::new();
+                run.rec("pair", &stack, &mut seq, &small_ops, 1);
+            }
+            idx += 1;
+        }
+    }
+    // family pair-cold (C10): the first operation arrives before the client has looked anything up; names are learned
+    // through READDIRPLUS only (as after `ls -l`), so nothing was loaded by an earlier LOOKUP
+    if prop == "C10" {
+        let cold_ops: Vec<OOp> = small_ops.iter().filter(|o| matches!(o, OOp::Rmdir(_) | OOp::Unlink(_) | OOp::Mkdir(_) | OOp::CreateExcl(_) | OOp::Chmod(_) | OOp::Write(_) | OOp::Link(..))).cloned().collect();
+        for (ui, u) in uppers.iter().enumerate() {
+            for (li, l) in lowers.iter().enumerate() {
+                if !thorough && (ui * 55 + li) % 4 != 0 {
+                    continue;
+                }
+                let stack = Stack { upper: Some(u.clone()), lowers: vec![l.clone()] };
+                for op in &cold_ops {
+                    if run.rep.mine(idx) && !run.rep.over_budget() {
+                        run.case("pair-cold", &stack, &[op.clone()]);
                     }
                     idx += 1;
                 }
@@ -1442,18 +1456,6 @@ pub fn run(args: &Args, prop: &'static str) -> Report {
                     }
                     idx += 1;
                 }
-            }
-        }
-    }
-    // family bigfile (C11): copy-up of files larger than the copy chunk, compared on the host byte by byte
-    if prop == "C11" {
-        let sizes: Vec<usize> = if thorough { vec![0, 1, 4095, 4096, 1 << 20, (4 << 20) - 1, 4 << 20, (4 << 20) + 1, (9 << 20) + 5] } else { vec![4096, (4 << 20) + 1] };
-        for size in sizes {
-            for opk in 0..3 {
-                if run.rep.mine(idx) && !run.rep.over_budget() {
-                    run.bigfile(size, opk);
-                }
-                idx += 1;
             }
         }
     }
